@@ -898,7 +898,7 @@ VSattach(HFILEID     f,    /* IN: file handle */
                 w->nattach++;
 
                 /* get the access_rec pointer to reset position */
-                if ((access_rec = HAatom_object(w->vs->aid)) == NULL)
+                if ((access_rec = HIaid2rec(w->vs->aid)) == NULL)
                     HGOTO_ERROR(DFE_ARGS, FAIL);
                 access_rec->posn = 0; /* to fix bugzilla #486 - BMR, Dec, 05 */
             }
@@ -1403,7 +1403,7 @@ VSdelete(int32 f, /* IN: file handle */
 
     /* check for write-permission to file (as Vdelete does) before the
        vdata is removed from the in-memory table */
-    file_rec = HAatom_object(f);
+    file_rec = HIfid2rec(f);
     if (BADFREC(file_rec))
         HGOTO_ERROR(DFE_ARGS, FAIL);
     if (!(file_rec->access & DFACC_WRITE))
